@@ -20,7 +20,9 @@ META = {"C39": {
             "bounded model that this per-call judgement keeps all touched memory inside the white list and the device "
             "content equal to the client's writes. TLC-generated environment behaviours (all sequences over a boundary "
             "alphabet, Start Flash families with data writes crossing pages / flush / progress / interfering "
-            "procedures, a second Start Flash racing with running flashes, random wide ones) plus the grid opcode 0..10,0xFF x length 0..20 are replayed on the real "
+            "procedures, a second Start Flash racing with running flashes, multi-chunk Read procedures and running flashes with "
+            "the application serving indications/progress while further control point writes of every opcode - accepted and "
+            "refused - arrive between the chunks, random wide ones) plus the grid opcode 0..10,0xFF x length 0..20 are replayed on the real "
             "bootloader::controller with a recording handler for several page sizes and region lists; control point "
             "values live in exact-size heap buffers under ASan; TLC validates every recorded call.",
     "note": "The controller is driven through its public write/read functions (the functions bootloader_service binds to "
@@ -67,9 +69,10 @@ def script_of(beh):
 
 def gen_cfg(c, name, cfg, depth, mode, leaf):
     page, regs = CONFIGS[cfg]
-    return vlib.write_cfg(c, name, "CONSTANTS RegionCodes = {%s}  PageSize = %d  AddrSize = %d  D = %d  Mode = \"%s\"\n"
+    return vlib.write_cfg(c, name, "CONSTANTS RegionCodes = {%s}  PageSize = %d  AddrSize = %d  D = %d  Mode = \"%s\"  K = %d\n"
                           "SPECIFICATION GSpec\nINVARIANTS %s\nCHECK_DEADLOCK FALSE\n"
-                          % (",".join(str(a * 1000 + b) for a, b in regs), page, ASIZE, depth, mode, "EmitLeaf" if leaf else "Emit"))
+                          % (",".join(str(a * 1000 + b) for a, b in regs), page, ASIZE, depth, mode, 1 if c.quick else 2,
+                             "EmitLeaf" if leaf else "Emit"))
 
 
 def grid(cfg):
@@ -254,11 +257,13 @@ def run(c):
         if not os.environ.get("VERIF_DEV_SKIP_MC") else pool.submit(lambda: None)
     # behaviours per configuration: (mode, depth) exhaustive + random wide ones
     if c.quick:
-        plan = {"p4_two": [("bfs", 2), ("flash", 3), ("race", 7)], "p4_unaligned": [("flash", 3)], "p16_two": [("flash", 3)]}
+        plan = {"p4_two": [("bfs", 2), ("flash", 3), ("race", 7), ("read", 4), ("busy", 4)], "p4_unaligned": [("flash", 3)],
+                "p16_two": [("flash", 3)]}
         nsim, dsim = 20, 8
     else:
-        plan = {"p4_two": [("bfs", 3), ("flash", 5), ("race", 8)], "p4_unaligned": [("bfs", 2), ("flash", 4)],
-                "p16_two": [("bfs", 2), ("flash", 4), ("race", 7)], "p4_adjacent": [("flash", 4)]}
+        plan = {"p4_two": [("bfs", 3), ("flash", 5), ("race", 8), ("read", 6), ("busy", 5)],
+                "p4_unaligned": [("bfs", 2), ("flash", 4), ("read", 4)],
+                "p16_two": [("bfs", 2), ("flash", 4), ("race", 7), ("read", 5), ("busy", 5)], "p4_adjacent": [("flash", 4)]}
         nsim, dsim = 60, 10
     only = os.environ.get("VERIF_DEV_C39_CONFIGS")           # development aid (mutation runs): restrict the configurations
     if only:
